@@ -8,7 +8,7 @@ Import ListNotations.
 Require Import Base.C11_Unique Model.C11_Topo Proofs.C11_TopoProofs.
 Require Import Model.C12_Refine Model.C12_Geom Model.C13_Adaptive.
 Require Import Proofs.C12_RefineProofs Proofs.C12_GeomProofs Proofs.C12_BoundaryProofs Proofs.C13_AdaptiveProofs.
-Require Import Model.C12_Global Proofs.C12_GlobalProofs.
+Require Import Model.C12_Global Proofs.C12_GlobalProofs Proofs.C12_InvProofs.
 Require Import Gen.C12Gen Dyn.C12Tie.
 Local Open Scope nat_scope.
 
@@ -369,6 +369,81 @@ Proof.
   - exact (shared_facet_same_pieces cells gen_tri_rfacets 3 tri_rf2_ok Hc F nv k1 a1 k2 a2 H1 H2 H3 H4).
 Qed.
 Print Assumptions C12_shared_facet_shares_halves.
+
+(* ---------------------------------------------------------------------------------------------
+   The induction over refined(k).  A uniform step (entity tables = Mesh.build_entities, C11) maps a mesh whose cells have
+   pairwise distinct, existing vertices to a mesh with the same property: the new node numbers off + (entity number) lie
+   in ranges disjoint from the old vertices and from each other, and inside a cell different slots have different entity
+   numbers (C11: equal numbers <=> equal vertex sets).  All four cell types. *)
+Theorem C12_uniform_step_keeps_distinct_vertices :
+  (forall p t, cells_ok 3 (length p) t ->
+     cells_ok 3 (length (fst (uniform_block tri_spec 2 p (tri_tabs t)))) (snd (uniform_block tri_spec 2 p (tri_tabs t)))) /\
+  (forall p t, cells_ok 4 (length p) t ->
+     cells_ok 4 (length (fst (uniform_block quad_spec 2 p (quad_tabs t)))) (snd (uniform_block quad_spec 2 p (quad_tabs t)))) /\
+  (forall p t, cells_ok 4 (length p) t ->
+     cells_ok 4 (length (fst (tet_step p (tet_tabs t)))) (snd (tet_step p (tet_tabs t)))) /\
+  (forall p t, cells_ok 8 (length p) t ->
+     cells_ok 8 (length (fst (uniform_block hex_spec 3 p (hex_tabs t)))) (snd (uniform_block hex_spec 3 p (hex_tabs t)))).
+Proof. split; [exact tri_step_ok | split; [exact quad_step_ok | split; [exact tet_step_ok | exact hex_step_ok]]]. Qed.
+Print Assumptions C12_uniform_step_keeps_distinct_vertices.
+
+(* hence, for EVERY k, the mesh refined(k) has cells with pairwise distinct vertices and in every cell of it containing a facet
+   f = {e0, e1} the next refinement leaves exactly the halves {e0, nv + f}, {nv + f, e1}: no hanging node at any level *)
+Theorem C12_refined_k_conforming_2d :
+  (forall k p t, cells_ok 3 (length p) t ->
+     let r := refined_k (uniform_block tri_spec 2) tri_tabs k p t in
+     cells_ok 3 (length (fst r)) (snd r) /\
+     forall nv c a, c < length (snd r) -> a < length gen_tri_rfacets ->
+       let tb := c11_tables (snd r) gen_tri_rfacets in
+       let f := nth a (cf (cell_ctx tb c)) 0 in
+       let e0 := nth 0 (nth f (tb_facets tb) []) 0 in let e1 := nth 1 (nth f (tb_facets tb) []) 0 in
+       forall e, In e (resolved_pieces gen_tri_rfacets (all_marked (snd r) gen_tri_rfacets) nv (cell_ctx tb c) a)
+                 <-> e = sort2 e0 (nv + f) \/ e = sort2 (nv + f) e1) /\
+  (forall k p t, cells_ok 4 (length p) t ->
+     let r := refined_k (uniform_block quad_spec 2) quad_tabs k p t in
+     cells_ok 4 (length (fst r)) (snd r) /\
+     forall nv c a, c < length (snd r) -> a < length gen_quad_rfacets ->
+       let tb := c11_tables (snd r) gen_quad_rfacets in
+       let f := nth a (cf (cell_ctx tb c)) 0 in
+       let e0 := nth 0 (nth f (tb_facets tb) []) 0 in let e1 := nth 1 (nth f (tb_facets tb) []) 0 in
+       forall e, In e (resolved_pieces gen_quad_rfacets (all_marked (snd r) gen_quad_rfacets) nv (cell_ctx tb c) a)
+                 <-> e = sort2 e0 (nv + f) \/ e = sort2 (nv + f) e1).
+Proof.
+  split; intros k p t H r.
+  - pose proof (refined_k_cells_ok (uniform_block tri_spec 2) tri_tabs 3 tri_step_ok k p t H) as Hk. split; [exact Hk|].
+    intros nv c a. exact (uniform_halves_everywhere (snd r) gen_tri_rfacets 3 nv c a tri_rf2_ok (cells_ok_distinct _ _ _ Hk)).
+  - pose proof (refined_k_cells_ok (uniform_block quad_spec 2) quad_tabs 4 quad_step_ok k p t H) as Hk. split; [exact Hk|].
+    intros nv c a. exact (uniform_halves_everywhere (snd r) gen_quad_rfacets 4 nv c a quad_rf2_ok (cells_ok_distinct _ _ _ Hk)).
+Qed.
+Print Assumptions C12_refined_k_conforming_2d.
+
+Theorem C12_refined_k_distinct_vertices_3d :
+  (forall k p t, cells_ok 4 (length p) t ->
+     let r := refined_k tet_step tet_tabs k p t in cells_ok 4 (length (fst r)) (snd r)) /\
+  (forall k p t, cells_ok 8 (length p) t ->
+     let r := refined_k (uniform_block hex_spec 3) hex_tabs k p t in cells_ok 8 (length (fst r)) (snd r)).
+Proof.
+  split; intros k p t H.
+  - exact (refined_k_cells_ok tet_step tet_tabs 4 tet_step_ok k p t H).
+  - exact (refined_k_cells_ok (uniform_block hex_spec 3) hex_tabs 8 hex_step_ok k p t H).
+Qed.
+Print Assumptions C12_refined_k_distinct_vertices_3d.
+
+(* ---------------------------------------------------------------------------------------------
+   children_tile_parent with the unformalised step as an EXPLICIT hypothesis: if "simplices inside the parent, with pairwise
+   separated interiors, non-degenerate, whose |det| add up to the parent's, cover the parent" (tri_/tet_tiling_principle, the
+   measure-theoretic principle, for an arbitrary predicate Covers), then the children of a triangle, and the eight children
+   of a tetrahedron for each of the three diagonal choices, cover their parent.  Everything but the principle is proved. *)
+Theorem C12_children_tile_parent_given_principle :
+  (forall Covers, tri_tiling_principle Covers -> Covers (map tri_W gen_tri_templates)) /\
+  (forall Covers, tet_tiling_principle Covers -> forall c, In c [0; 1; 2] -> Covers (map tet_W (tet_family c))).
+Proof.
+  split.
+  - intros Covers HP. exact (tri_tiles_cover Covers tri_W gen_tri_templates HP tri_uniform_tiles).
+  - intros Covers HP c Hc. pose proof tet_uniform_tiles as H. rewrite forallb_forall in H.
+    exact (tet_tiles_cover Covers tet_W (tet_family c) HP (H c Hc)).
+Qed.
+Print Assumptions C12_children_tile_parent_given_principle.
 
 (* second-order classes: MeshTri2 / MeshQuad2 / MeshHex2 refine through from_mesh (tags dropped) and Mesh.refined re-creates the
    subdomains with the generic fallback, MeshTet2 (after N1) refines as MeshTet1 carrying the subdomains: in every case the
